@@ -35,7 +35,8 @@ def ceq(a, b):
 
 def contains_in_order(raw, needles):
     """z3 condition: every needle occurs in `raw`, in order and without overlap, where a backslash that sits between `*` and `/`
-    (the escape the fix introduces for `*/`) may be skipped while matching"""
+    (the escape the fix introduces for `*/`) may be skipped while matching, and so may a comment gutter ` *` that the generator puts
+    at the start of a continuation line (directly after a newline of the text): both are presentation, not loss of text"""
     n = len(needles)
 
     def isesc(p):
@@ -59,7 +60,11 @@ def contains_in_order(raw, needles):
             return z3.BoolVal(False)
         key = (i, p, k)
         if key not in memo:
-            memo[key] = z3.Or(z3.And(ceq(raw[p], needles[i][k]), match(i, p + 1, k + 1)), z3.And(isesc(p), match(i, p + 1, k)))
+            alts = [z3.And(ceq(raw[p], needles[i][k]), match(i, p + 1, k + 1)), z3.And(isesc(p), match(i, p + 1, k))]
+            if k > 0 and p + 1 < len(raw):
+                alts.append(z3.And(ceq(needles[i][k - 1], 10), ceq(raw[p - 1], 10) if p > 0 else z3.BoolVal(False),
+                                   ceq(raw[p], 32), ceq(raw[p + 1], 42), match(i, p + 2, k)))
+            memo[key] = z3.Or(alts)
         return memo[key]
     return rest(0, 0)
 
